@@ -33,3 +33,9 @@ impl ShowU8 of Showable<u8> {
         0
     }
 }
+
+fn macro_errors_generic(v: u32) -> Array<u32> {
+    let out = array![v,  undefined_generic_item, 3];
+    assert!(v  == missing_generic, "generic {}", v);
+    out
+}
